@@ -1,14 +1,16 @@
 #!/bin/bash
-# tools/try_seed.sh <patch.diff> : apply a seeded change to /repo, run every claimed check (quick), undo it.
+# tools/try_seed.sh <patch.diff> : apply a change to a scratch copy of /repo/src (never to /repo itself), run every claimed check (quick)
+# against it and print what they report.
 set -u
-P=$1
-cd /repo || exit 2
-if ! git diff --quiet; then echo "/repo has uncommitted changes"; exit 2; fi
-git apply "$P" || { echo "patch does not apply"; exit 2; }
+P=$(readlink -f "$1")
+T=$(mktemp -d /tmp/bsa_try_XXXXXX)
+cp -r /repo/src "$T/src"
+rm -rf "$T/src/bluesky/tests"
+( cd "$T" && patch -s -p1 -i "$P" ) || { echo "patch does not apply"; rm -rf "$T"; exit 2; }
 cd /verif
 for m in $(ls bsa/rules/c[0-9]*.py | sed 's#.*/c\([0-9]*\).py#C\1#'); do
-  out=$(./check $m 2>&1); rc=$?
-  if [ $rc -ne 0 ]; then echo "== $m rc=$rc"; echo "$out" | grep -E "^FINDING|ANALYSIS-ERROR" | cut -c1-260 | head -5; fi
+  out=$(BSA_REPO=$T BSA_EVIDENCE_DIR=$T/ev BSA_OUT_DIR=$T/out ./check $m 2>&1); rc=$?
+  if [ $rc -ne 0 ]; then echo "== $m rc=$rc"; echo "$out" | grep -E "^FINDING|ANALYSIS-ERROR" | sed "s#$T#/repo#g" | cut -c1-260 | head -5; fi
 done
-git -C /repo checkout -- .
-echo "(reverted)"; git -C /repo status --short | head -3
+rm -rf "$T"
+echo "(scratch copy removed)"
